@@ -71,16 +71,21 @@ def run(ctx: Ctx) -> None:
         for what, alg, kind in bad:
             ctx.violation(f"leak:{what} {alg} key={kind} private material in produced serialization", {"alg": alg, "kind": kind})
     ctx.evaluations += len(tasks) * 4
+    from . import reenc
+    ctx.evaluations += reenc.run(ctx, "C12")      # JweReuse.tla: the epk of every token along encrypt / edit / encrypt histories, pinned ephemeral keys
     for t in tasks:
         ctx.nontrivial.add("tok:" + t[1])
     ctx.rule = ("JwkHeap.tla: histories of two key objects built over shared caller dictionaries (build/touch/public export/key-set export), "
                 "replayed on real keys with the model's predicted set of leaked members compared at every export; "
                 "every public output along the replayed Jwk.tla chains (public JWK, public key set, public PEM/DER, thumbprint, kid) scanned for the key's private "
                 "parameters (member names; octets raw/hex/decimal/base64/base64url at 3 alignments); tokens of all 15 JWS and 21 JWE algorithms in compact and "
-                "JSON form incl. the epk header; distinct_nontrivial = distinct chains + algorithms")
+                "JSON form incl. the epk header, and the epk of every token along the JweReuse.tla histories (object encrypted again, ephemeral key pinned by the caller); distinct_nontrivial = distinct chains + algorithms")
     ctx.assumptions = ["leakage through timing or through error messages is not decided", "scanning looks for parameters of at least 8 octets"]
 
 
 def replay(ctx: Ctx, rec: dict) -> None:
+    if rec.get("reuse"):
+        from . import reenc
+        return reenc.replay(ctx, rec)
     from . import c11
     c11.replay(ctx, rec)
